@@ -275,7 +275,7 @@ pub fn swarm_run(seed: u64, ri: u64, thorough: bool, st: &mut Stats, errs: &mut 
                 inst.payload = Payload::Typed;
             }
         }
-        budgets.push(Budget { max_calls: r.calls + 1000, max_polls: r.polls + 64 });
+        budgets.push(Budget { max_calls: r.calls + 1000, max_polls: r.polls + r.calls + 64 });
         instances.push(inst);
     }
     // derivatives that advance the next instance from inside their own step
